@@ -446,14 +446,26 @@ async fn run_inner(w: &Workload, chooser: &mut Chooser, seed: u64) -> Obs {
     let mut senders_done_ms: Option<u64> = None;
     loop {
         let t = now_ms(start);
-        if Duration::from_millis(t) >= hard_deadline {
+        // Past the horizon an incomplete run that never got its association up is only abandoned
+        // once an endpoint has reported the association closed or ten horizons have passed: set-up
+        // timers back off exponentially (INIT: 200 ms doubling, 9 attempts = 102 s before INIT_TIMEOUT is
+        // reported), and "stalled" must not be concluded while such a timer is still pending.
+        // Only association SET-UP backs off without a cap (data retransmission is capped by
+        // RTO.max = 60 s = one horizon), so the extension applies while no channel has opened yet.
+        let mut settled = || {
+            a.sctp.as_ref().map_or(false, |x| x.close_reason().is_some())
+                || b.sctp.as_ref().map_or(false, |x| x.close_reason().is_some())
+                || logs.lock().values().any(|c| !c.events.is_empty())
+                || all_delivered(&logs.lock(), &submitted.lock(), &w.chans)
+        };
+        if Duration::from_millis(t) >= hard_deadline && (settled() || Duration::from_millis(t) >= hard_deadline + Duration::from_millis(9 * w.horizon_ms)) {
             break;
         }
         if senders_done_ms.is_none() && sender_handles.iter().all(|h| h.is_finished()) {
             senders_done_ms = Some(t);
         }
         if let Some(sd) = senders_done_ms {
-            if t >= sd + w.horizon_ms {
+            if t >= sd + w.horizon_ms && (settled() || t >= sd + 10 * w.horizon_ms) {
                 break;
             }
             if w.linger_ms > 0 && held.is_empty() {
